@@ -66,7 +66,8 @@ def decodeControlCore (w : UInt16) : M ρ (List DErr) Msg := do
   let nr ← readU16
   if length.toNat < 12 then fail [.incompleteControlMessageHeader] else
   if length.toNat > (← len) + 12 then fail [.incompleteControlMessagePayload] else
-  let body ← inSub (length.toNat - 12) (greedy : M ρ DErr (List Res))
+  let bodyLength ← subM length.toNat 12              -- `length as usize - FIXED_LENGTH`
+  let body ← inSub bodyLength (greedy : M ρ DErr (List Res))
   match body with
   | .error e => fail [e]   -- unreachable: the greedy reader never returns an error itself
   | .ok rs =>
@@ -111,11 +112,15 @@ def skipOffset : Option UInt16 → M ρ DErr Unit
     or from what remains -/
 def readDataPayload (initial : Nat) (w : UInt16) (h : DataHdr) : M ρ DErr Msg := do
   let remaining ← len
-  let headerLength := 2 + (initial - remaining)
+  let consumed ← subM initial remaining              -- `initial_length - reader.len()`
+  let headerLength := 2 + consumed
   match h.mlen with
   | some l =>
-    if l.toNat < headerLength || l.toNat - headerLength > remaining then fail .incompleteDataMessagePayload else
-    let plen := l.toNat - headerLength
+    -- `(length as usize) < header_length || length as usize - header_length > reader.len()`: the
+    -- subtraction is only evaluated when the first disjunct is false
+    if l.toNat < headerLength then fail .incompleteDataMessagePayload else
+    let plen ← subM l.toNat headerLength
+    if plen > remaining then fail .incompleteDataMessagePayload else
     if plen = 0 then fail .emptyDataMessagePayload else
     let d ← readBytes plen .messageReadError
     pure (.data { prio := isPrioritized w, length := h.mlen, tunnelId := h.tid, sessionId := h.sid, nsnr := h.nsnr,
